@@ -41,6 +41,7 @@ type Engine struct {
 	scalars     map[*ssa.Global]*ssa.Const
 	initExprs   map[*ssa.Global]*initExpr
 	allBaseline map[string]bool
+	trivialAnchors []string // assert obligations that were trivially true at their site (the site exists)
 	scalarSeen  map[*ssa.Global]bool
 	renamedBare map[string]string // functions under contract that were renamed: old bare name -> new bare name
 	renamedNew  map[string]string // new funcName -> old funcName (for baseline lookups)
